@@ -6,6 +6,7 @@ from vlib.run import *
 def run(chk, replay=None):
     rng = random.Random(chk.seed)
     th = chk.tier == 'thorough'
+    LIM = streams.line_limit()
     good = [l for l, _ in streams.grammar_lines(rng, 40, 0.1) + streams.fixture_lines()]
     odd = [l for l, _ in streams.search_lines(rng, None if th else 450) + streams.byte_lines(rng, good, 2500 if th else 500) + streams.wrapper_lines(rng, 3000 if th else 600)]
     odd = [l for l, _ in streams.corpus_lines() + streams.anyjson_lines(rng, 1200 if th else 350) + streams.grammar_lines(rng, 1200 if th else 300, 0.2)] + [gen.plan_line(rng, rng.choice(['mydb.users', 'd.c', 'other.x'])) for _ in range(400 if th else 150)] + odd
@@ -48,7 +49,7 @@ def run(chk, replay=None):
         # each odd line placed inside a 3-line log: the run continues and the neighbours are emitted as usual
         pos_cases, meta = [], []
         for l in rng.sample(sub, min(len(sub), 400 if th else 120)):
-            if len(l) > 65535: continue
+            if LIM is not None and len(l) > LIM - 1: continue
             for pos in range(3):
                 ls = [g1, g2]; ls.insert(pos, l)
                 pos_cases.append({'data': b'\n'.join(ls) + b'\n'}); meta.append((l, pos))
@@ -62,10 +63,10 @@ def run(chk, replay=None):
             if icls != 'ok' or iout != exp:
                 chk.violate('a line disturbed the rest of the run', {'cfg': cfg.describe(), 'position': pos, 'line': l[:500].decode('utf-8', 'replace'), 'result': icls, 'output': iout[:300].decode('utf-8', 'replace')}, tags=['abort', icls])
         chk.streams.append({'stream': 'odd lines alone and at every position of a 3-line log', 'cfg': cfg.describe(), 'lines': len(sub), 'positioned': len(pos_cases)})
-    # the reader's limit: lengths around 65536, terminated / unterminated / CRLF
+    # the reader's limit (measured on the compiled program, not assumed): lengths around it, terminated / unterminated / CRLF
     cfg = Cfg()
     lim = []
-    for n in (65533, 65534, 65535, 65536, 65537, 70000):
+    for n in ((LIM - 3, LIM - 2, LIM - 1, LIM, LIM + 1, LIM + 4464) if LIM is not None else (65535, 65536, 70000, 300000)):
         frame = b'{"c":"X","attr":{"p":""}}'
         body = b'{"c":"X","attr":{"p":"' + b'y' * (n - len(frame)) + b'"}}'
         assert len(body) == n
@@ -85,10 +86,10 @@ def run(chk, replay=None):
     # through the CLI: exit status 1 (not 2 = panic) on an over-long line, 0 otherwise
     with tempfile.TemporaryDirectory() as d:
         f = os.path.join(d, 'in.log')
-        open(f, 'wb').write(g1 + b'\n' + b'z' * 70000 + b'\n' + g2 + b'\n')
+        open(f, 'wb').write(g1 + b'\n' + b'z' * ((LIM or 70000) + 4464) + b'\n' + g2 + b'\n')
         rc, so, se = streamlib.cli_run(['redact', f])
         chk.count()
-        if rc != 1 or so != g1o + b'\n':
+        if (rc != 1 or so != g1o + b'\n') if LIM is not None else (rc != 0):
             chk.violate('CLI: over-long line not reported as an explicit error', {'rc': rc, 'stdout': so[:200].decode('utf-8', 'replace'), 'stderr': se[-200:].decode('utf-8', 'replace')}, tags=['cli', 'toolong'])
         open(f, 'wb').write(b'\n'.join([g1] + rng.sample(odd[:300], 40) + [g2]) + b'\n')
         rc, so, se = streamlib.cli_run(['redact', f, '-n', '-w'])
